@@ -22,7 +22,7 @@ def run(ctx):
     ctx.cov["rule"] = ("cases: (i) pairs (s, t) of byte strings: every s up to length 3 over {',', ' ', 'a', 'B', NUL, 0xC8} x every t up to length 2 over {',', ' ', 'a', 'b'} "
                        "plus seeded longer strings (lengths 4..9 for the codecs: all residues mod 3, all line-break widths 0/4/8/76); each pair is given to every helper "
                        "and overload; (ii) vectors of up to 3 strings (length <= 2) over {',', '\"', '\\\\', ' ', 'a', newline} with glue ',' and ',;' for join/split and "
-                       "join_quoted/split_quoted; non-trivial = some string non-empty; distinct by content")
+                       "join_quoted/split_quoted, plus single fields of length 3-4 over {',', '\"', '\\', 'a'} and seeded fields up to length 6 that include tab / CR / LF and the letters n, r, t; non-trivial = some string non-empty; distinct by content")
     tlc_mc(ctx, SD, "MC_StrA", "mc_stra_run.cfg", workers=8, coverage=False, timeout=3000,
            cfg_text="CONSTANTS Bytes = {44, 65, 97}\n MaxLen = %d\nSPECIFICATION Spec\nINVARIANT Laws\nCHECK_DEADLOCK FALSE\n" % (3 if quick else 4))
     lines = []
@@ -50,6 +50,16 @@ def run(ctx):
         vecs += [list(v) for v in itertools.product(small, repeat=3)]
     else:
         vecs += [[rng.choice(fields) for _ in range(3)] for _ in range(300)]
+    # longer fields for join_quoted / split_quoted: a quote or escape character in the middle of a field, before / after a separator,
+    # and the characters with their own escape sequences (tab, CR, LF) next to the letters n, r, t (round-4 seeded change: a field that
+    # needs quoting only because of a separator behind an embedded quote character was written unquoted)
+    A_Q = (44, 34, 92, 97)
+    f3 = [list(c) for n in (3, 4) for c in itertools.product(A_Q, repeat=n)]
+    A_E = (44, 34, 92, 32, 97, 10, 9, 13, 110, 114, 116)
+    fr = [[rng.choice(A_E) for _ in range(rng.randint(1, 6))] for _ in range(150 if quick else 4000)]
+    vecs += [[f] for f in (rng.sample(f3, 120) if quick else f3)] + [[f] for f in fr]
+    vecs += [[rng.choice(f3 + fr), rng.choice(fields + fr)] for _ in range(150 if quick else 4000)]
+    vecs += [[rng.choice(fields), rng.choice(f3 + fr), rng.choice(fields)] for _ in range(100 if quick else 3000)]
     for v in vecs:
         for glue in ([44], [44, 59]):
             lines.append("V %d %s %s" % (len(v), " ".join(bl(f) for f in v), bl(glue)))
